@@ -26,7 +26,7 @@ ASSUMPTIONS = [
     "fresh-model comparison uses the exact solver and the same random_state (rtol 1e-9)",
     "rotator results are compared with a fresh rotator on a fresh model while the rotator is current (fitted after the last model fit)",
 ]
-TIERS = {"quick": (8, 25), "thorough": (16, 200)}
+TIERS = {"quick": (8, 20), "thorough": (16, 200)}
 CASE_TIMEOUT = 600
 
 CLASSES = ["EOF", "EOF", "ComplexEOF", "SparsePCA", "POP", "CPCCA", "MCA"]
